@@ -21,13 +21,13 @@ LEVEL = "exploration"
 TECHNIQUE = "bounded exhaustive enumeration of link tables (all 625 small ones, all 1- and 2-edit neighbours of consistent ones), real Grid construction against the reciprocity predicate"
 RULE = "case = link table (+ dataset variant); non-trivial = the table has at least one link"
 SPACE = {
-    "quick": "625 tables (2 faces, 1 axis); all single edits and all pairs of edits of 6 consistent tables (2 faces x 2 axes; 3 faces x 2 axes); 72 structured consistent tables of 3-6 faces and 16 representative ones; 2 face dimensions; absent face dimension; unknown axis / face",
+    "quick": "625 tables (2 faces, 1 axis); all single edits and all pairs of edits of 6 consistent tables (2 faces x 2 axes; 3 faces x 2 axes); 72 structured consistent tables of 3-6 faces and 16 representative ones; 2 face dimensions; absent face dimension; unknown axis / face; surplus rows keyed by an absent face with every one-link content; 5 datasets with other face labels x (130 tables as they are and relabelled)",
     "thorough": "pairs of edits on 14 base tables",
 }
 BOUNDS = {"quick": {"bases": 6}, "thorough": {"bases": 14}}
 ASSUMPTIONS = [
     "rejection = any exception raised by the constructor; acceptance = a Grid is returned",
-    "faces are the integers 0..K-1 of the dataset's face coordinate; axes X and Y",
+    "a face exists when it is a label of the dataset's face coordinate (0..K-1, and the label sets [1,2], [10,20], [1,0], [0,2], [2,1]); axes X and Y", "a table row without any link is not classified when its face is absent",
 ]
 
 
@@ -37,12 +37,12 @@ def respell(table, mode):
     return {f: {A: tuple(None if l is None else (l[0], l[1], conv(l[2])) for l in pair) for A, pair in ax.items()} for f, ax in table.items()}
 
 
-def make(K, table, axes=("X", "Y"), facedim="face", extra_fc=None, ds_variant=None):
+def make(K, table, axes=("X", "Y"), facedim="face", extra_fc=None, ds_variant=None, labels=None):
     from xgcm import Grid
 
     N = 2
     coords = {"x": ("x", np.arange(N)), "xl": ("xl", np.arange(N) - 0.5), "y": ("y", np.arange(N)), "yl": ("yl", np.arange(N) - 0.5),
-              "face": ("face", np.arange(K))}
+              "face": ("face", np.arange(K) if labels is None else np.array(labels))}
     ds = xr.Dataset(coords=coords)
     if ds_variant == "scalar-coordinate":
         ds = ds.isel(face=0)  # `face` survives as a scalar coordinate, not as a dimension
@@ -60,9 +60,10 @@ def make(K, table, axes=("X", "Y"), facedim="face", extra_fc=None, ds_variant=No
         return Grid(ds, coords=gc, face_connections=fc, periodic=False, autoparse_metadata=False)
 
 
-def predicate(K, table, axes):
+def predicate(K, table, axes, labels=None):
+    exists = (lambda f: isinstance(f, int) and 0 <= f < K) if labels is None else (lambda f: f in labels)
     for f, ax in table.items():
-        if not (isinstance(f, int) and 0 <= f < K):
+        if not exists(f):
             return False
         for A, pair in ax.items():
             if A not in axes:
@@ -71,16 +72,20 @@ def predicate(K, table, axes):
                 if link is None:
                     continue
                 g, B, rev = link
-                if not (isinstance(g, int) and 0 <= g < K) or B not in axes:
+                if not exists(g) or B not in axes:
                     return False
     return T.reciprocal(table)
 
 
-def check(rec, K, table, axes=("X", "Y"), sub="table", variant=None):
-    case = dict(K=K, table=tab_json(table), axes=list(axes), variant=variant)
-    want = predicate(K, table, axes) and variant in (None, "flags-int", "flags-npbool")
+def check(rec, K, table, axes=("X", "Y"), sub="table", variant=None, labels=None):
+    case = dict(K=K, table=tab_json(table), axes=list(axes), variant=variant, labels=labels)
+    present = (lambda f: 0 <= f < K) if labels is None else (lambda f: f in labels)
+    if any(not present(f) and not any(l for pair in ax.values() for l in pair) for f, ax in table.items() if isinstance(f, int)):
+        rec.counters["skipped:link-free row of an absent face (not classified)"] += 1
+        return
+    want = predicate(K, table, axes, labels) and variant in (None, "flags-int", "flags-npbool")
     nlinks = sum(1 for f in table for A in table[f] for l in table[f][A] if l)
-    rec.case((K, tab_json(table), axes, variant), nlinks > 0, sample=case if nlinks >= 2 else None)
+    rec.case((K, tab_json(table), axes, variant, None if labels is None else tuple(labels)), nlinks > 0, sample=case if nlinks >= 2 else None)
     rec.outcomes["expected-accept" if want else "expected-reject"] += 1
     try:
         if variant == "two-face-dims":
@@ -92,7 +97,7 @@ def check(rec, K, table, axes=("X", "Y"), sub="table", variant=None):
         elif variant in ("flags-int", "flags-npbool"):
             make(K, respell(table, 1 if variant == "flags-int" else 2), axes)
         else:
-            make(K, table, axes)
+            make(K, table, axes, labels=labels)
         ok = True
     except Exception as e:
         ok = False
@@ -212,6 +217,38 @@ def run_shard(shard, tier, seed, rec):
         for bi, (K, b) in enumerate(base_tables(tier)):
             for ei, t in enumerate(edits(b, K)):
                 check(rec, K, t, sub="flag-spelling", variant=("flags-int", "flags-npbool")[(bi + ei) % 2])
+        # a surplus row keyed by a face the dataset does not have, holding any one link (to any face, reciprocated or not)
+        for K, b in base_tables(tier):
+            fb = full(b, K)
+            for A in ("X", "Y"):
+                for side in (0, 1):
+                    for v in slot_values(K + 1):
+                        if v is None:
+                            continue  # a surplus row without links is not classified by the statement
+                        pair = [None, None]
+                        pair[side] = v
+                        t = dict(fb)
+                        t[K] = {A: tuple(pair)}
+                        check(rec, K, t, sub="surplus-row")
+                        if v[0] < K:
+                            # ... also when the face it points to links back to it
+                            t2 = {f: dict(ax) for f, ax in t.items()}
+                            g, B, rev = v
+                            back_side = side if rev else 1 - side
+                            bp = list(t2[g][B])
+                            bp[back_side] = (K, A, rev)
+                            t2[g][B] = tuple(bp)
+                            check(rec, K, t2, sub="surplus-row")
+        # datasets whose face labels are not 0..K-1: a face exists when it is one of the labels
+        for labels in ([1, 2], [10, 20], [1, 0], [0, 2], [2, 1]):
+            m = {0: labels[0], 1: labels[1]}
+            for i, t in enumerate(all_625()):
+                if i % 5 == 0 or i < 30:
+                    # the table as it is, on the relabelled dataset
+                    check(rec, 2, t, axes=("X",), sub="face-labels", labels=labels)
+                    # the table relabelled with the dataset
+                    tr = {m[f]: {A: tuple(None if l is None else (m[l[0]], l[1], l[2]) for l in pair) for A, pair in ax.items()} for f, ax in t.items()}
+                    check(rec, 2, tr, axes=("X",), sub="face-labels", labels=labels)
         # unknown axis / unknown face in an otherwise reciprocal table
         check(rec, 2, {0: {"Z": (None, (1, "Z", False))}, 1: {"Z": ((0, "Z", False), None)}}, sub="variants")
         check(rec, 2, {0: {"X": (None, (5, "X", False))}, 5: {"X": ((0, "X", False), None)}}, sub="variants")
@@ -219,4 +256,4 @@ def run_shard(shard, tier, seed, rec):
 
 
 def replay_case(case, seed, rec):
-    check(rec, case["K"], tab_from_json(case["table"]), axes=tuple(case["axes"]), variant=case.get("variant"))
+    check(rec, case["K"], tab_from_json(case["table"]), axes=tuple(case["axes"]), variant=case.get("variant"), labels=case.get("labels"))
